@@ -11,7 +11,10 @@
   since the stream was last restarted, and the stream is restarted exactly by a change the
   generator can see (model incl. nugget, seed value, mode number, explicit reset).
   Part 3: positions: a field-level call stores and evaluates the positions it was given, whatever
-  was stored before.
+  was stored before; a call WITHOUT position argument is exactly the call with the stored positions
+  given explicitly (so after any in-place change of the model — geometry included — or of the
+  generator settings it returns what a fresh object returns at those positions); with nothing stored
+  it raises.
 -/
 import GSV.Props.KernelSummate
 import GSV.Model.Gen
@@ -109,14 +112,25 @@ theorem genCall_coherent (s : State) (n : Nat) (b : Bool) (p : Option Nat) (h : 
     Coherent (genCall s n b p).1 := by
   unfold genCall; split <;> exact h
 
-theorem preCall_coherent (s : State) (a : SeedArg) (p : Nat) (h : Coherent s) : Coherent (preCall s a p) :=
-  update_coherent s s.srfModel a h
+theorem preCall_coherent (s : State) (a : SeedArg) (p : Option Nat) (h : Coherent s) : Coherent (preCall s a p) := by
+  cases p <;> exact update_coherent s s.srfModel a h
+
+/-- a field-level call with a position argument: the generator runs in `preCall` at the given set -/
+theorem step_srfCall_given (s : State) (a : SeedArg) (p n : Nat) :
+    step s (.srfCall a (some p) n) =
+      ((genCall (preCall s a (some p)) n true (some p)).1, some (genCall (preCall s a (some p)) n true (some p)).2) := rfl
 
 /-- for integer seeds the reseed counter does not matter; for `None` seeds coherence is kept because
     nothing but a reseed changes the counter -/
 theorem step_coherent (s : State) (op : Op) (h : Coherent s) : Coherent (step s op).1 := by
   cases op with
-  | srfCall a p n => exact genCall_coherent _ n true (some p) (preCall_coherent s a p h)
+  | srfCall a p n =>
+    have hc := preCall_coherent s a p h
+    simp only [step]
+    split
+    · exact genCall_coherent _ n true _ hc
+    · exact hc
+  | setPos p => exact h
   | modelChange m => exact h
   | genSetSeed x => exact setSeed_coherent s x h
   | genSetModeNo n =>
@@ -150,19 +164,20 @@ theorem update_genModel (s : State) (m : MVal) (a : SeedArg) : (update s m a).ge
       · rw [if_pos hx]; exact this
       · rw [if_neg hx]; exact this
 
-theorem preCall_genModel (s : State) (a : SeedArg) (p : Nat) : (preCall s a p).genModel = s.srfModel :=
-  update_genModel s s.srfModel a
+theorem preCall_genModel (s : State) (a : SeedArg) (p : Option Nat) : (preCall s a p).genModel = s.srfModel := by
+  cases p <;> exact update_genModel s s.srfModel a
 
 /-- **C11_equals_fresh**: whatever happened before (in-place model changes, seed or mode-number changes,
     earlier calls), a field-level call `srf(pos, seed=…)` uses arrays derived from the field's *current*
     model, the resulting seed and mode number — exactly what a freshly constructed object uses. -/
 theorem srfCall_equals_fresh (s : State) (a : SeedArg) (p n : Nat) (h : Coherent s) :
-    ∃ o, (step s (.srfCall a p n)).2 = some o ∧
-      o.field = derive s.srfModel (step s (.srfCall a p n)).1.seed (step s (.srfCall a p n)).1.modeNo (step s (.srfCall a p n)).1.epoch ∧
-      (step s (.srfCall a p n)).1.genModel = s.srfModel := by
-  have hm := preCall_genModel s a p
-  have hc : Coherent (preCall s a p) := preCall_coherent s a p h
-  simp only [step]
+    ∃ o, (step s (.srfCall a (some p) n)).2 = some o ∧
+      o.field = derive s.srfModel (step s (.srfCall a (some p) n)).1.seed (step s (.srfCall a (some p) n)).1.modeNo
+        (step s (.srfCall a (some p) n)).1.epoch ∧
+      (step s (.srfCall a (some p) n)).1.genModel = s.srfModel := by
+  have hm := preCall_genModel s a (some p)
+  have hc : Coherent (preCall s a (some p)) := preCall_coherent s a (some p) h
+  rw [step_srfCall_given]
   unfold genCall
   split
   · exact ⟨_, rfl, by simp only []; rw [hc, hm], hm⟩
@@ -274,7 +289,7 @@ theorem genCall_out_pos (s : State) (q : Option Nat) (n : Nat) (b : Bool) (p : O
 
 /-- the fresh object that reproduces a field-level call: the field's current model, the resulting seed and
     mode number, and the number of noise draws since the stream was last restarted -/
-def callRecipe (s : State) (a : SeedArg) (p x : Nat) : Recipe :=
+def callRecipe (s : State) (a : SeedArg) (p : Option Nat) (x : Nat) : Recipe :=
   { model := s.srfModel, seed := some x, modeNo := (preCall s a p).modeNo, burn := (preCall s a p).draws }
 
 /-- **C11_noise_replay (field level)**: after ANY history, a field-level call that leaves an integer seed
@@ -283,74 +298,162 @@ def callRecipe (s : State) (a : SeedArg) (p x : Nat) : Recipe :=
     — where `burn` is the number of noise draws since the last restart of the stream, and the stream is
     restarted by `update` iff the model (incl. its nugget) or the seed value changed. -/
 theorem srfCall_equals_fresh_replay (s : State) (a : SeedArg) (p n x : Nat) (h : Coherent s)
-    (hs : (preCall s a p).seed = some x) :
-    (step s (.srfCall a p n)).2 = (step (replayState (callRecipe s a p x)) (.srfCall .keep p n)).2 := by
-  have hr : recipe (preCall s a p) = callRecipe s a p x := by
+    (hs : (preCall s a (some p)).seed = some x) :
+    (step s (.srfCall a (some p) n)).2 =
+      (step (replayState (callRecipe s a (some p) x)) (.srfCall .keep (some p) n)).2 := by
+  have hr : recipe (preCall s a (some p)) = callRecipe s a (some p) x := by
     simp only [recipe, callRecipe, preCall_genModel, hs]
-  have hg := genCall_equals_fresh_replay (preCall s a p) x hs (preCall_coherent s a p h) n true (some p)
+  have hg := genCall_equals_fresh_replay (preCall s a (some p)) x hs (preCall_coherent s a (some p) h) n true (some p)
   rw [hr] at hg
-  obtain ⟨hgm, hsm, _, _, _, _⟩ := replayState_spec (callRecipe s a p x)
+  obtain ⟨hgm, hsm, _, _, _, _⟩ := replayState_spec (callRecipe s a (some p) x)
   -- on the fresh object `update` sees its own model: nothing happens
   have hu : ∀ t : State, t.genModel = t.srfModel → update t t.srfModel .keep = t := by
     intro t ht; unfold update; simp [ht]
   -- `set_pos` does not touch what the generator reads
   have hp : ∀ (t : State) (q : Nat), (genCall (setPos t q) n true (some p)).2 = (genCall t n true (some p)).2 :=
     fun t q => genCall_out_pos t (some q) n true (some p)
-  show some (genCall (preCall s a p) n true (some p)).2 =
-    some (genCall (preCall (replayState (callRecipe s a p x)) .keep p) n true (some p)).2
+  show some (genCall (preCall s a (some p)) n true (some p)).2 =
+    some (genCall (preCall (replayState (callRecipe s a (some p) x)) .keep (some p)) n true (some p)).2
   apply congrArg some
-  unfold preCall at hg ⊢
+  simp only [preCall] at hg ⊢
   rw [hu _ (by rw [hgm, hsm]), hp, hp]
   rw [hp] at hg
   exact hg.symm
 
 /-- the stream is restarted exactly by a visible change: if the generator's copy already equals the field's
     model and the seed argument is `keep` or the present value, a field-level call continues the stream … -/
-theorem srfCall_continues_stream (s : State) (a : SeedArg) (p : Nat)
+theorem srfCall_continues_stream (s : State) (a : SeedArg) (p : Option Nat)
     (hm : s.genModel = s.srfModel) (ha : a = .keep ∨ a = .set s.seed) :
     (preCall s a p).draws = s.draws ∧ (preCall s a p).epoch = s.epoch := by
-  unfold preCall setPos update
-  rw [if_neg (by simp [hm])]
-  rcases ha with rfl | rfl
-  · exact ⟨rfl, rfl⟩
-  · simp [setSeed]
+  have key : (update s s.srfModel a).draws = s.draws ∧ (update s s.srfModel a).epoch = s.epoch := by
+    unfold update
+    rw [if_neg (by simp [hm])]
+    rcases ha with rfl | rfl
+    · exact ⟨rfl, rfl⟩
+    · simp [setSeed]
+  cases p <;> exact key
 
 /-- … and any change of the field's model that `CovModel.__eq__` sees (variance, nugget, anisotropy, angles,
     length scale, shape arguments — all of it is in `MVal`) or a different seed value restarts it at position 0 -/
-theorem srfCall_restarts_stream (s : State) (a : SeedArg) (p : Nat)
+theorem srfCall_restarts_stream (s : State) (a : SeedArg) (p : Option Nat)
     (hc : s.genModel ≠ s.srfModel ∨ ∃ x, a = .set x ∧ x ≠ s.seed) :
     (preCall s a p).draws = 0 ∧ (preCall s a p).epoch = s.epoch + 1 := by
-  unfold preCall setPos update
-  by_cases hm : s.genModel ≠ s.srfModel
-  · rw [if_pos hm]; exact ⟨rfl, rfl⟩
-  · rw [if_neg hm]
-    rcases hc with hc | ⟨x, rfl, hx⟩
-    · exact absurd hc hm
-    · simp only [setSeed]; rw [if_pos hx]; exact ⟨rfl, rfl⟩
+  have key : (update s s.srfModel a).draws = 0 ∧ (update s s.srfModel a).epoch = s.epoch + 1 := by
+    unfold update
+    by_cases hm : s.genModel ≠ s.srfModel
+    · rw [if_pos hm]; exact ⟨rfl, rfl⟩
+    · rw [if_neg hm]
+      rcases hc with hc | ⟨x, rfl, hx⟩
+      · exact absurd hc hm
+      · simp only [setSeed]; rw [if_pos hx]; exact ⟨rfl, rfl⟩
+  cases p <;> exact key
 
 /-! ## Part 3: positions -/
 
 /-- **C11_pos_is_given**: a field-level call stores the positions it was given and its output belongs to
     them — independently of the positions stored by earlier calls (and of everything else in the state) -/
 theorem srfCall_pos_is_given (s : State) (a : SeedArg) (p n : Nat) :
-    (step s (.srfCall a p n)).1.pos = some p ∧ ∃ o, (step s (.srfCall a p n)).2 = some o ∧ o.pos = some p := by
-  simp only [step]
+    (step s (.srfCall a (some p) n)).1.pos = some p ∧
+      ∃ o, (step s (.srfCall a (some p) n)).2 = some o ∧ o.pos = some p := by
+  rw [step_srfCall_given]
   unfold genCall
   split
   · exact ⟨rfl, _, rfl, rfl⟩
   · exact ⟨rfl, _, rfl, rfl⟩
 
-/-- the stored positions never influence an output: two states that differ only in the stored positions
-    give the same output for every operation (so the value at a location cannot depend on which points an
-    earlier call requested) -/
-theorem stored_pos_irrelevant (s : State) (q : Option Nat) (op : Op) :
+/-- `generator.update` never touches the stored positions -/
+theorem update_keeps_pos (s : State) (m : MVal) (a : SeedArg) : (update s m a).pos = s.pos := by
+  by_cases hm : s.genModel ≠ m
+  · simp only [update]; rw [if_pos hm]; rfl
+  · simp only [update]; rw [if_neg hm]
+    cases a with
+    | keep => rfl
+    | set x =>
+      by_cases hx : x ≠ s.seed
+      · simp only [setSeed]; rw [if_pos hx]; rfl
+      · simp only [setSeed]; rw [if_neg hx]
+
+theorem setPos_same (u : State) (q : Nat) (h : u.pos = some q) : setPos u q = u := by
+  cases u
+  simp only [setPos] at h ⊢
+  rw [h]
+
+/-- **C11_reuse_is_given**: a field-level call WITHOUT position argument, when a position set `q` is stored, is in
+    every respect (new state, output) the call with `q` given explicitly.  Together with `srfCall_equals_fresh`,
+    `srfCall_equals_fresh_replay` and `srfCall_pos_is_given` this is the statement that re-evaluating stored positions
+    after any history — in-place changes of the model (variance, length scale, anisotropy, rotation: all of it is in
+    the model value the generator is updated with and whose geometry is applied), of the seed, of the mode number —
+    returns what a freshly constructed object returns at those positions. -/
+theorem srfCall_reuse_eq_given (s : State) (a : SeedArg) (n q : Nat) (h : s.pos = some q) :
+    step s (.srfCall a none n) = step s (.srfCall a (some q) n) := by
+  have hp : (preCall s a none).pos = some q := by
+    show (update s s.srfModel a).pos = some q
+    rw [update_keeps_pos]; exact h
+  have he : preCall s a (some q) = preCall s a none := setPos_same _ q hp
+  rw [step_srfCall_given, he]
+  simp only [step, hp]
+
+/-- with nothing stored the call raises (no output); `generator.update` has already run -/
+theorem srfCall_without_pos_raises (s : State) (a : SeedArg) (n : Nat) (h : s.pos = none) :
+    step s (.srfCall a none n) = (update s s.srfModel a, none) := by
+  have hp : (preCall s a none).pos = none := by
+    show (update s s.srfModel a).pos = none
+    rw [update_keeps_pos]; exact h
+  simp only [step, hp]
+  rfl
+
+/-- the reuse call returns the stored set's values and leaves it stored -/
+theorem srfCall_reuse_pos (s : State) (a : SeedArg) (n q : Nat) (h : s.pos = some q) :
+    (step s (.srfCall a none n)).1.pos = some q ∧ ∃ o, (step s (.srfCall a none n)).2 = some o ∧ o.pos = some q := by
+  rw [srfCall_reuse_eq_given s a n q h]
+  exact srfCall_pos_is_given s a q n
+
+/-- **C11_reuse_equals_fresh**: after ANY history, a call without position argument that leaves an integer seed returns
+    exactly — nugget noise included — what a freshly constructed object with the field's CURRENT model, the resulting
+    seed and mode number returns at the stored positions after `burn` noise draws -/
+theorem srfCall_reuse_equals_fresh_replay (s : State) (a : SeedArg) (n x q : Nat) (h : Coherent s)
+    (hq : s.pos = some q) (hs : (preCall s a none).seed = some x) :
+    (step s (.srfCall a none n)).2 =
+      (step (replayState (callRecipe s a none x)) (.srfCall .keep (some q) n)).2 := by
+  rw [srfCall_reuse_eq_given s a n q hq]
+  exact srfCall_equals_fresh_replay s a q n x h hs
+
+/-- in particular right after an in-place change of the field's model (`m` carries anisotropy and rotation, too):
+    the fresh object of the comparison is built from the NEW model value -/
+theorem reuse_after_modelChange (s : State) (m : MVal) (a : SeedArg) (n x q : Nat) (h : Coherent s)
+    (hq : s.pos = some q) (hs : (preCall (step s (.modelChange m)).1 a none).seed = some x) :
+    (callRecipe (step s (.modelChange m)).1 a none x).model = m ∧
+    (step (step s (.modelChange m)).1 (.srfCall a none n)).2 =
+      (step (replayState (callRecipe (step s (.modelChange m)).1 a none x)) (.srfCall .keep (some q) n)).2 :=
+  ⟨rfl, srfCall_reuse_equals_fresh_replay _ a n x q h hq hs⟩
+
+/-- `set_pos(p)` followed by a call without positions is the call at `p` -/
+theorem setPos_then_reuse (s : State) (a : SeedArg) (p n : Nat) :
+    step (step s (.setPos p)).1 (.srfCall a none n) = step s (.srfCall a (some p) n) := by
+  show step (setPos s p) (.srfCall a none n) = _
+  rw [srfCall_reuse_eq_given (setPos s p) a n p rfl, step_srfCall_given, step_srfCall_given]
+  have : preCall (setPos s p) a (some p) = preCall s a (some p) := by
+    show setPos (update { s with pos := some p } s.srfModel a) p = setPos (update s s.srfModel a) p
+    rw [update_pos]; rfl
+  rw [this]
+
+/-- the stored positions never influence the output of an operation that does not ask for them: two states that differ
+    only in the stored positions give the same output for every operation except the call without position argument
+    (so the value at a location cannot depend on which points an earlier call requested); for that call see
+    `srfCall_reuse_eq_given` -/
+theorem stored_pos_irrelevant (s : State) (q : Option Nat) (op : Op) (hop : ∀ a n, op ≠ .srfCall a none n) :
     (step { s with pos := q } op).2 = (step s op).2 := by
   cases op with
   | srfCall a p n =>
-    show some (genCall (setPos (update { s with pos := q } s.srfModel a) p) n true (some p)).2 =
-      some (genCall (setPos (update s s.srfModel a) p) n true (some p)).2
-    rw [update_pos]
-    rfl
+    cases p with
+    | none => exact absurd rfl (hop a n)
+    | some p =>
+      rw [step_srfCall_given, step_srfCall_given]
+      show some (genCall (setPos (update { s with pos := q } s.srfModel a) p) n true (some p)).2 =
+        some (genCall (setPos (update s s.srfModel a) p) n true (some p)).2
+      rw [update_pos]
+      rfl
+  | setPos p => rfl
   | modelChange m => rfl
   | genSetSeed x => rfl
   | genSetModeNo n => rfl
@@ -358,12 +461,22 @@ theorem stored_pos_irrelevant (s : State) (q : Option Nat) (op : Op) :
   | genCall n b => exact congrArg some (genCall_out_pos s q n b none)
 
 example : Coherent (run (init ⟨1, 1⟩ (some 7) 100)
-    [.srfCall (.set (some 7)) 0 5, .modelChange ⟨2, 0⟩, .srfCall .keep 1 5, .genSetModeNo 50, .srfCall (.set none) 0 3]).1 :=
+    [.srfCall (.set (some 7)) (some 0) 5, .modelChange ⟨2, 0⟩, .srfCall .keep none 5, .genSetModeNo 50, .setPos 1,
+     .srfCall (.set none) none 3]).1 :=
   reachable_coherent _ _ _ _
 
 /-- the hypotheses of `srfCall_equals_fresh_replay` are met after a history with noise drawn, an in-place
     change of the nugget only, and a call that keeps the seed: the stream is restarted (burn = 0) -/
-example : (preCall (run (init ⟨1, 1⟩ (some 7) 100) [.srfCall .keep 0 5, .modelChange ⟨1, 2⟩]).1 .keep 0).draws = 0 ∧
-    (preCall (run (init ⟨1, 1⟩ (some 7) 100) [.srfCall .keep 0 5, .genCall 3 true]).1 .keep 1).draws = 2 := by decide
+example : (preCall (run (init ⟨1, 1⟩ (some 7) 100) [.srfCall .keep (some 0) 5, .modelChange ⟨1, 2⟩]).1 .keep (some 0)).draws = 0 ∧
+    (preCall (run (init ⟨1, 1⟩ (some 7) 100) [.srfCall .keep (some 0) 5, .genCall 3 true]).1 .keep (some 1)).draws = 2 := by decide
+
+/-- the hypotheses of `srfCall_reuse_equals_fresh_replay` / `reuse_after_modelChange` are met after a call at set 3, an
+    in-place model change and a generator-level seed change: set 3 is still stored, the seed is an integer, and the
+    reuse call's output carries the NEW model (identifier 2) at set 3; on a fresh object the call without positions raises -/
+example :
+    let s := (run (init ⟨1, 0⟩ (some 7) 100) [.srfCall .keep (some 3) 5, .modelChange ⟨2, 0⟩, .genSetSeed (some 12)]).1
+    s.pos = some 3 ∧ (preCall s .keep none).seed = some 12 ∧
+    ((step s (.srfCall .keep none 5)).2.map fun o => (o.field.model, o.pos)) = some (2, some 3) ∧
+    (step (init ⟨1, 0⟩ (some 7) 100) (.srfCall .keep none 5)).2 = none := by decide
 
 end GSV.Props.C11
